@@ -531,6 +531,10 @@ func c12prop(ev *evid.Rec) func(rt *rapid.T) {
 								if t.Type != hlref.TranChatMsg || string(id) != ch.id {
 									fail("decline: client %d received an unrelated %s", o.idx, chatNorm(t))
 								}
+								// (the wording is the server's; it names the user who declined, byte for byte)
+								if d, _ := t.Get(hlref.FData); !bytes.Contains(d, c.name) {
+									fail("decline of chat%d by client %d (name %q): the notice to client %d does not carry that name: %q", chatIndex(chats, ch), c.idx, c.name, o.idx, d)
+								}
 								n++
 							}
 						}
